@@ -440,6 +440,22 @@ fn cases(tier: Tier) -> Vec<Case> {
         c.repeat = Some(b"no".to_vec());
         v.push(c);
     }
+    // D: reply heads with many field lines (a 407 of a real proxy easily has twenty): up to the request's
+    // max_headers (100 by default) they are read like any other head
+    for status in [200u16, 403, 407, 502] {
+        for n in [15usize, 16, 17, 24, 99, 100] {
+            let mut h = format!("HTTP/1.1 {status} Some Reason\r\n").into_bytes();
+            for i in 0..n - 1 {
+                h.extend_from_slice(format!("X-Proxy-Info-{i}: v{i}\r\n").as_bytes());
+            }
+            h.extend_from_slice(b"Content-Length: 0\r\n\r\n");
+            for uniform in [None, Some(7usize)] {
+                let mut c = base(Origin::Domain, None, ProxyCred::UserPass, Req::PostSecret, h.clone(), true);
+                c.uniform = uniform;
+                v.push(c);
+            }
+        }
+    }
     v
 }
 
